@@ -281,6 +281,7 @@ impl EventGen for GroupElement {
         // scope (an attribute may refer to an outer variable of its own name: x="{{$x + 1}}")
         context.push_element(&new_el);
 
+        let evaluated_el = new_el.clone();
         let mut content_bb = None;
         let mut events = OutputList::new();
         if self.0.is_empty_element() {
@@ -304,7 +305,8 @@ impl EventGen for GroupElement {
         context.pop_element();
 
         // Messy! should probably have a id->bbox map in context
-        let mut new_el = self.0.clone();
+        // (the element as evaluated: its `transform` may be given by variables)
+        let mut new_el = evaluated_el;
         new_el.content_bbox = content_bb;
         context.update_element(&new_el);
         context.set_prev_element(&new_el);
